@@ -163,6 +163,13 @@ fn specials() -> Vec<String> {
         "db \"abc".into(),
         "db \"abc\"".into(),
         "x: db \"abc\"\nstart: mov al, byte x".into(),
+        // backslashes in strings (syntax.md: characters are not escaped), a lone backslash before the closing quote
+        "x: db \"C:\\TOOLS\\\"\nstart: mov al, byte x\n".into(),
+        "dw \"\\\"\nstart: hlt\n".into(),
+        "db \"\\x\"\ndb \"\\xZ\"\ndb \"\\n\\t\\0\\\\\"\nstart: hlt\n".into(),
+        // a label inside a macro body, defined again at top level, long expansion
+        "macro m(a) -> l1: inc a inc a inc a inc a inc a inc a inc a inc a inc a inc a inc a inc a inc a inc a inc a inc a inc a inc a inc a inc a <-\nstart: m(ax)\nl1: nop\n".into(),
+        "macro m(a) -> inc a l1: <-\nstart: m(ax)\nm(bx)\n".into(),
         // every kind of definition laid across the end of the 1 MiB address space (the loader must wrap)
         "set 0xFFFF\ndb [10]\ndb \"wrapped around!\"\nstart: print mem 0 -> 15\n".into(),
         "SET 0xFFFF\nDB [13]\nDW \"wide chars\"\nstart: print mem 0xFFFF0 -> 0xFFFFF\n".into(),
